@@ -84,6 +84,10 @@ def annotate_citations(
         if offset_updater:
             start = offset_updater.update(start, bisect_right)
             end = offset_updater.update(end, bisect_left)
+            if end < start:
+                # an empty span next to inserted text maps its end before
+                # its start; keep it empty rather than inverted
+                end = start
 
         # handle overlaps
         if start < last_end:
